@@ -34,6 +34,10 @@ def cases(ctx):
         yield "exhaustive", f
     for i in range(20000 if ctx.thorough else 1500):
         yield "random", gen_html.rand_forest(ctx.rng, ctx.rng.randint(1, 14))
+    for i in range(40000 if ctx.thorough else 3000):
+        yield "random", gen_html.rand_forest_small(ctx.rng, ctx.rng.randint(3, 12))
+    for i in range(40000 if ctx.thorough else 3000):
+        yield "random", gen_html.rand_forest_tiny(ctx.rng, ctx.rng.randint(4, 10))
 
 
 def run(ctx):
@@ -70,7 +74,7 @@ def run(ctx):
         if merged and refused:
             ctx.sample({"input": inp, "collapsed": out})
     # correspondence, in-kernel: model (spec and code-shaped) = implementation
-    limit = len(terms) if ctx.thorough else min(len(terms), 6000)
+    limit = len(terms) if ctx.thorough else min(len(terms), 12000)
     badidx = ctx.coq_eval("c04", HEADER, terms[:limit], "list (node str) * list (node str)", "chk")
     for i in badidx[:5]:
         ctx.violation("correspondence", "model and mammoth.html.collapse disagree",
